@@ -1,1 +1,296 @@
-/-! Property theorems for C17 (stub: not built yet). -/
+import Usual.C17.Tls
+import UsualProofs.C17.ConfigEq
+import UsualProofs.C17.Wrap
+import UsualProofs.C17.Policy
+import UsualProofs.C17.Chan
+/-! # C17 — TLS: policy decides session setup exactly; data intact under any schedule
+
+Property-level theorems about the model `Usual.C17` (lean/Usual/C17/{Config,Tls}.lean), which mirrors
+usual/tls/{tls.c, tls_config.c, tls_client.c, tls_server.c} *with fixes F18 (C08), F28 and F29
+applied*.  What these theorems do **not** carry (and why the level claimed is "other"): the decision
+about a certificate chain, the record layer and the version negotiation are taken inside the linked
+OpenSSL; they appear here as the parameters `PeerCert.trusted/timeValid`, the scripted `SslRes`
+results, and the functions `clientRange`/`negotiated` transcribed from OpenSSL's
+`ssl_get_min_max_version`/`ssl_choose_server_version`.  The correspondence run (checks/C17.py,
+harness/C17/h.c) compares each of them with the real stack on the full matrix.
+
+Unchanged-code findings kept as theorems: `configEqualOld_counterexample` (fix F28) and
+`ioOld_zero_on_oversize_counterexample` (fix F29). -/
+namespace UsualProps.C17
+open Usual.C17 UsualProofs.C17
+
+/-! ## tls_config_equal -/
+
+/-- `tls_config_equal` is true exactly when every configurable field of the two configs is equal.
+    No field of `struct tls_config` other than `error` (not configurable) is left out. -/
+theorem configEqual_iff (a b : Config) : configEqual a b = true ↔ ∀ f : Field, a.get f = b.get f :=
+  (configEqual_iff_eq a b).trans (fields_eq_iff a b).symm
+
+example : configEqual (runSetters [.caMem (.buf [1, 2]), .verifyDepth 3] (Config.new [47]))
+                      (runSetters [.verifyDepth 3, .caMem (.buf [1, 2])] (Config.new [47])) = true := by decide
+example : configEqual (runSetters [.verifyDepth 3] (Config.new [47])) (Config.new [47]) = false := by decide
+
+/-- …equivalently: the two records are equal -/
+theorem configEqual_iff_eq (a b : Config) : configEqual a b = true ↔ a = b :=
+  UsualProofs.C17.configEqual_iff_eq a b
+
+example : configEqual (runSetters [.ocspFile (some [97])] (Config.new []))
+                      (runSetters [.ocspMem (.buf [97])] (Config.new [])) = false := by decide
+
+/-- `tls_keypair_list_equal`: equal length and pairwise equal in all four members (induction on the lists) -/
+theorem keypairListEqual_iff (a b : List Keypair) :
+    keypairListEqual a b = true ↔
+      List.Forall₂ (fun x y => x.certFile = y.certFile ∧ x.certMem = y.certMem ∧
+                               x.keyFile = y.keyFile ∧ x.keyMem = y.keyMem) a b := by
+  rw [UsualProofs.C17.keypairListEqual_iff]
+  constructor
+  · intro h; subst h
+    induction a with
+    | nil => exact .nil
+    | cons x xs ih => exact .cons ⟨rfl, rfl, rfl, rfl⟩ ih
+  · intro h
+    induction h with
+    | nil => rfl
+    | cons hxy _ ih =>
+      rename_i x y
+      cases x; cases y
+      simp only [Keypair.mk.injEq, List.cons.injEq] at hxy ⊢
+      exact ⟨hxy, ih⟩
+
+example : keypairListEqual [⟨none, .null 0, some [1], .buf []⟩, ⟨none, .null 0, none, .null 0⟩]
+                           [⟨none, .null 0, some [1], .buf []⟩] = false := by decide
+
+/-- The pinned tree (before fix F28): `tls_mem_equal` skips the content comparison when either
+    pointer is NULL, so two configs that differ in a configurable field compare equal.
+    Witness reachable through the public setters:
+    `tls_config_set_ca_mem(a, NULL, 3)` versus `tls_config_set_ca_mem(b, "abc", 3)`
+    (and, with length 0: the default config versus `tls_config_set_ca_mem(b, "", 0)`, where
+    `tls_configure_ssl_verify` takes different branches).  Replayed on the real code: corpus/C17/f28-*.ops. -/
+theorem configEqualOld_counterexample :
+    ¬ (∀ a b : Config, configEqualOld a b = true ↔ a = b) := by
+  intro h
+  have := (h (runSetters [.caMem (.null 3)] (Config.new [])) (runSetters [.caMem (.buf [97, 98, 99])] (Config.new []))).1
+    (by decide)
+  exact absurd this (by decide)
+
+example : configEqualOld (Config.new []) (runSetters [.caMem (.buf [])] (Config.new [])) = true := by decide
+
+/-- every setter is exactly the list of field assignments of its specification `Setter.spec`,
+    and a sequence of setter calls is the composition of the single calls -/
+theorem setters_commute_with_model (c : Config) (s : Setter) (xs ys : List Setter) :
+    (s.apply c).cfg = c.putAll (s.spec c) ∧
+    runSetters (xs ++ ys) c = runSetters ys (runSetters xs c) :=
+  ⟨apply_eq_spec c s, runSetters_append xs ys c⟩
+
+example : (Setter.apply (Config.new []) (.ocspFile (some [120]))).cfg =
+    (Config.new []).putAll [(.ocspMem, .mem (.null 0)), (.ocspFile, .str (some [120]))] := by decide
+
+/-! ## return values -/
+
+/-- `tls_read` and `tls_write` return only n > 0, 0, −1, TLS_WANT_POLLIN or TLS_WANT_POLLOUT;
+    `tls_handshake` and `tls_close` only the last four — whatever the SSL object answers,
+    in every connection state. -/
+theorem rv_range (c : Conn) (script : List SslRes) (buflen : Nat) (sock : Option SockEnv) :
+    IoRv (tlsRead c script buflen).rv ∧ IoRv (tlsWrite c script buflen).rv ∧
+    StatusRv (tlsHandshake c script).rv ∧ StatusRv (tlsClose c script sock).rv :=
+  ⟨io_range c script buflen, io_range c script buflen, handshake_range c script, close_range c script sock⟩
+
+example : (tlsRead ⟨true, false, true, false, false, true, true, true, .unchanged⟩ [⟨-1, .wantRead, false⟩] 10).rv
+    = TLS_WANT_POLLIN := by decide
+example : (tlsRead ⟨true, false, false, false, false, true, true, true, .unchanged⟩
+    [⟨1, .none, false⟩, ⟨7, .none, false⟩] 10).rv = 7 := by decide
+
+/-- 0 means "orderly end": with the handshake complete, `tls_read`/`tls_write` return 0 only when
+    the SSL call reported no error / close_notify / a bare transport EOF — and in no state for a
+    buffer longer than INT_MAX -/
+theorem read_zero_only_at_end (c : Conn) (script : List SslRes) (buflen : Nat)
+    (hab : c.doAbort = false) (h0 : (tlsRead c script buflen).rv = 0) :
+    buflen ≤ INT_MAX ∧ (c.hc = true → ZeroClass (pop script).1) :=
+  ⟨io_zero_not_oversize c script buflen hab h0,
+   fun hhc => (io_zero_only_at_end c script buflen hhc hab h0).2⟩
+
+example : (tlsRead ⟨true, false, true, false, false, true, true, true, .unchanged⟩ [⟨0, .zeroReturn, false⟩] 10).rv = 0 := by
+  decide
+
+/-- The pinned tree (before fix F29): when the handshake is completed inside the call and the
+    buffer is longer than INT_MAX, `tls_read`/`tls_write` set "buflen too long" but return 0. -/
+theorem ioOld_zero_on_oversize_counterexample :
+    ¬ (∀ (c : Conn) (s : List SslRes) (n : Nat), c.doAbort = false → (tlsIOOld c s n).rv = 0 → n ≤ INT_MAX) := by
+  intro h
+  obtain ⟨c, s, n, _, hab, hn, h0, _⟩ := ioOld_zero_on_oversize
+  have := h c s n hab h0
+  omega
+
+/-- A transport cut without close_notify is reported by `tls_close`.
+    (1) the way OpenSSL ≤ 1.1.1 signals it (SSL_read → 0, SSL_ERROR_SYSCALL, empty error queue):
+        `tls_read` returns 0 and remembers it, and every later `tls_close` returns −1 — or
+        asks to be called again (WANT), still remembering;
+    (2) the way OpenSSL 3 signals it (fatal SSL_ERROR_SSL / SSL_ERROR_SYSCALL from SSL_shutdown):
+        `tls_close` returns −1. -/
+theorem eof_without_notify_reported (c : Conn) (rest script : List SslRes) (buflen : Nat)
+    (sock : Option SockEnv) (r : SslRes)
+    (hvalid : c.roleValid = true) (hhc : c.hc = true) (hab : c.doAbort = false) (hn : buflen ≤ INT_MAX) :
+    (let o := tlsRead c (eofRes :: rest) buflen
+     o.rv = 0 ∧
+     ((tlsClose o.st script sock).rv = -1 ∨
+      (((tlsClose o.st script sock).rv = TLS_WANT_POLLIN ∨ (tlsClose o.st script sock).rv = TLS_WANT_POLLOUT) ∧
+        (tlsClose o.st script sock).st.eofNoNotify = true))) ∧
+    (r.ret < 0 → (r.err = .ssl ∨ (r.err = .syscall ∧ (r.queued = true ∨ r.ret ≠ 0))) →
+      (tlsClose c (r :: rest) sock).rv = -1) := by
+  constructor
+  · obtain ⟨h1, h2, h3⟩ := read_eof_sets_flag c rest buflen hhc hab hn
+    refine ⟨h1, ?_⟩
+    rcases close_reports_flag _ script sock (h3.trans hvalid) h2 with h | ⟨h, h', _⟩
+    · exact Or.inl h
+    · exact Or.inr ⟨h, h'⟩
+  · intro hneg hfatal
+    exact close_fatal_reported c r rest sock hvalid hneg hfatal
+
+example : (tlsClose (tlsRead ⟨true, false, true, false, false, true, true, true, .unchanged⟩ [eofRes] 16).st
+    [⟨0, .none, false⟩] none).rv = -1 := by decide
+example : (tlsClose ⟨true, true, true, false, false, true, true, true, .unchanged⟩ [⟨-1, .syscall, false⟩] none).rv = -1 := by
+  decide
+
+/-! ## protocol versions -/
+
+/-- The negotiated version is common to both ends' effective version sets and is the highest such
+    version.  (`verBits` = bits 1..4 of `config->protocols`; `perm` = versions the linked OpenSSL's
+    policy permits, probed at start-up.) -/
+theorem negotiated_is_max_common (perm cp sp v : Nat)
+    (h : negotiated (verBits perm) (verBits cp) (verBits sp) = some v) :
+    effectiveClient (verBits perm) (verBits cp) v = true ∧ effectiveServer (verBits perm) (verBits sp) v = true ∧
+    ∀ w, effectiveClient (verBits perm) (verBits cp) w = true → effectiveServer (verBits perm) (verBits sp) w = true →
+      w ≤ v := by
+  have hp : verBits perm < 16 := Nat.mod_lt _ (by decide)
+  have hc : verBits cp < 16 := Nat.mod_lt _ (by decide)
+  have hs : verBits sp < 16 := Nat.mod_lt _ (by decide)
+  have hk := negOk_all ⟨_, hp⟩ ⟨_, hc⟩ ⟨_, hs⟩
+  simp only [negOk, h, Bool.and_eq_true, List.all_eq_true, List.mem_range, Bool.or_eq_true,
+    Bool.not_eq_true', decide_eq_true_eq] at hk
+  obtain ⟨hcom, hmax⟩ := hk
+  simp only [common, Bool.and_eq_true] at hcom
+  refine ⟨hcom.1, hcom.2, ?_⟩
+  intro w hw1 hw2
+  have hw4 : w < 4 := by
+    simp only [effectiveServer, Bool.and_eq_true, decide_eq_true_eq] at hw2
+    exact hw2.2
+  rcases hmax w hw4 with h' | h'
+  · simp [common, hw1, hw2] at h'
+  · exact h'
+
+example : negotiated (verBits 30) (verBits 30) (verBits 24) = some 3 := by decide
+example : negotiated (verBits 30) (verBits (2 + 8)) (verBits 8) = none := by decide   -- client {1.0,1.2}: only 1.0 offered
+
+/-- Conversely a handshake fails for version reasons only when the effective sets are disjoint — or
+    in OpenSSL's one anti-downgrade case: best common version TLS 1.0, the client's maximum TLS 1.1
+    disabled at a server that supports TLS 1.2 (the server marks the hello, the client aborts with
+    "inappropriate fallback"). -/
+theorem negotiated_none_iff_disjoint_or_fallback (perm cp sp : Nat)
+    (h : negotiated (verBits perm) (verBits cp) (verBits sp) = none) :
+    (∀ w, ¬ (effectiveClient (verBits perm) (verBits cp) w = true ∧ effectiveServer (verBits perm) (verBits sp) w = true)) ∨
+    (highest (common (verBits perm) (verBits cp) (verBits sp)) = some 0 ∧
+     highest (effectiveClient (verBits perm) (verBits cp)) = some 1 ∧
+     effectiveServer (verBits perm) (verBits sp) 1 = false ∧ effectiveServer (verBits perm) (verBits sp) 2 = true) := by
+  have hp : verBits perm < 16 := Nat.mod_lt _ (by decide)
+  have hc : verBits cp < 16 := Nat.mod_lt _ (by decide)
+  have hs : verBits sp < 16 := Nat.mod_lt _ (by decide)
+  have hk := negOk_all ⟨_, hp⟩ ⟨_, hc⟩ ⟨_, hs⟩
+  simp only [negOk, h, Bool.or_eq_true, List.all_eq_true, List.mem_range, Bool.not_eq_true',
+    Bool.and_eq_true, beq_iff_eq] at hk
+  rcases hk with hk | hk
+  · left
+    intro w ⟨h1, h2⟩
+    have hw4 : w < 4 := by
+      simp only [effectiveServer, Bool.and_eq_true, decide_eq_true_eq] at h2
+      exact h2.2
+    have := hk w hw4
+    simp [common, h1, h2] at this
+  · right
+    exact ⟨hk.1.1.1, hk.1.1.2, hk.1.2, hk.2⟩
+
+example : negotiated (verBits 30) (verBits (2 + 4)) (verBits (2 + 8)) = none := by decide  -- the fallback case
+
+/-- what a client offers is OpenSSL's contiguous range: every version in it is enabled, nothing
+    enabled lies below it, and the version right above it is disabled (the *lowest* run of the set) -/
+theorem clientRange_is_lowest_run (cp mn mx : Nat) (h : clientRange (verBits cp) = (some mn, some mx)) :
+    mn ≤ mx ∧ mx < 4 ∧ (∀ v, mn ≤ v → v ≤ mx → hasVer (verBits cp) v = true) ∧
+    (∀ v, v < mn → hasVer (verBits cp) v = false) ∧ (mx + 1 < 4 → hasVer (verBits cp) (mx + 1) = false) := by
+  have hc : verBits cp < 16 := Nat.mod_lt _ (by decide)
+  have hk := rangeOk_all ⟨_, hc⟩
+  simp only [rangeOk, h, Bool.and_eq_true, decide_eq_true_eq, List.all_eq_true, List.mem_range,
+    Bool.or_eq_true, Bool.not_eq_true', Bool.and_eq_false_imp, decide_eq_false_iff_not, beq_iff_eq] at hk
+  obtain ⟨⟨h1, h2⟩, h3⟩ := hk
+  refine ⟨h1, h2, ?_, ?_, ?_⟩
+  · intro v hv1 hv2
+    have := (h3 v (by omega)).1.1
+    rcases this with h' | h'
+    · exact absurd hv2 (h' hv1)
+    · exact h'
+  · intro v hv
+    have := (h3 v (by omega)).1.2
+    rcases this with h' | h'
+    · exact absurd hv (by simpa using h')
+    · exact h'
+  · intro hlt
+    have := (h3 (mx + 1) hlt).2
+    rcases this with h' | h'
+    · exact absurd rfl (by simpa using h')
+    · exact h'
+
+example : clientRange (verBits (2 + 8 + 16)) = (some 0, some 0) := by decide
+
+/-! ## policy -/
+
+/-- The session-setup decision, stated outright: the server certificate chain must be trusted where
+    verify_cert demands it (dates valid unless verify_time is off), the name covered when verify_name
+    is on (which needs a server name), and the client certificate trusted where verify_client
+    demands it: required → present and good; optional → good if present. -/
+theorem decision_iff_policy (p : Policy) :
+    decision p = true ↔
+      (p.verifyCert = true → p.serverCert.trusted = true ∧ (p.verifyTime = true → p.serverCert.timeValid = true)) ∧
+      (p.verifyName = true → p.serverNameGiven = true ∧ p.nameCovered = true) ∧
+      (p.verifyClient = .required → ∃ c, p.clientCert = some c ∧ c.trusted = true ∧
+          (p.serverVerifyTime = true → c.timeValid = true)) ∧
+      (p.verifyClient = .optional → ∀ c, p.clientCert = some c → c.trusted = true ∧
+          (p.serverVerifyTime = true → c.timeValid = true)) :=
+  decision_iff p
+
+example : decision ⟨true, true, false, true, ⟨true, false⟩, true, .optional, true, none⟩ = true := by decide
+example : decision ⟨true, true, true, true, ⟨true, false⟩, true, .optional, true, none⟩ = false := by decide
+example : decision ⟨false, false, true, false, ⟨false, false⟩, false, .required, true, none⟩ = false := by decide
+
+/-- a session is established iff the policy is satisfied and the effective protocol sets yield a version;
+    the policy is read off the two `tls_config` records as the library does it -/
+theorem established_iff (cc sc : Config) (given covered : Bool) (scert : PeerCert) (ccert : Option PeerCert)
+    (perm : Nat) :
+    established (Policy.ofConfigs cc sc given scert covered ccert) (verBits perm)
+        (verBits cc.protocols.toNat) (verBits sc.protocols.toNat) = true ↔
+      decision (Policy.ofConfigs cc sc given scert covered ccert) = true ∧
+      ∃ v, negotiated (verBits perm) (verBits cc.protocols.toNat) (verBits sc.protocols.toNat) = some v := by
+  simp [established, Option.isSome_iff_exists]
+
+example : established (Policy.ofConfigs (Config.new []) (runSetters [.verifyClientOptional] (Config.new []))
+    true ⟨true, true⟩ true none) (verBits 24) (verBits 24) (verBits 24) = true := by decide
+
+/-! ## data -/
+
+/-- Under every schedule of bounded writes, reads and closes of the two endpoints, each side has
+    received exactly a prefix of what the other wrote, in order (induction on the schedule); every
+    step's result is in the permitted set; and a read answers 0 only at the orderly end. -/
+theorem fifo_any_schedule (cap k : Nat) (sched : List Step) (a b : Bytes) :
+    let r := Duplex.run cap k sched (Duplex.init a b)
+    r.1.c2s.recvd = a.take r.1.c2s.recvd.length ∧ r.1.s2c.recvd = b.take r.1.s2c.recvd.length ∧
+    (r.1.c2s.pending = [] → r.1.c2s.inflight = [] → r.1.c2s.recvd = a) ∧
+    (r.1.s2c.pending = [] → r.1.s2c.inflight = [] → r.1.s2c.recvd = b) ∧
+    ∀ rv ∈ r.2, IoRv rv := by
+  have hinv := run_inv cap k sched _ a b (init_inv a b)
+  have hf := fifo cap k sched a b
+  exact ⟨hf.1, hf.2, fun hp hi => complete_of_drained _ _ hinv.1 hp hi,
+    fun hp hi => complete_of_drained _ _ hinv.2 hp hi, run_rvs cap k sched _⟩
+
+example : (Duplex.run 4 3 [.write true 5, .read true 2, .write true 5, .read true 9, .write false 1, .close true,
+    .read true 1, .read false 4] (Duplex.init [1, 2, 3, 4, 5, 6] [9])).1.c2s.recvd = [1, 2, 3, 4] := by decide
+example : (Duplex.run 4 3 [.write true 5, .read true 2, .close true, .read true 9, .read true 1]
+    (Duplex.init [1, 2, 3] [])).2 = [3, 2, 0, 1, 0] := by decide
+
+end UsualProps.C17
